@@ -101,6 +101,7 @@ type runner struct {
 	priPosPrev map[string]ltx.Pos         // primary positions after the previous event (loop mode)
 	priPrevName string
 	restores  int
+	hotLeft   map[string]bool // databases on which hotj left a journal at some point
 	recreateRolledBack map[string]bool // databases whose re-creation was started and rolled back (an empty database file may exist)
 	idles int // idle events so far (an idle period changes no state the key sees; at most two per history)
 }
@@ -389,7 +390,7 @@ func (r *runner) tx(db, shape string) bool {
 		return false
 	}
 	s := cur.N()
-	if s == 0 {
+	if s == 0 || r.hotJournal(p, db) {
 		return true
 	}
 	conn := pager.NewConn(p.M, db, r.nextOwner(), cur.PageSize)
@@ -622,13 +623,16 @@ func (r *runner) apply(ev string) bool {
 				return false
 			}
 		}
-	case "hot":
+	case "hot", "hotj":
+		// hotj: the first half of hot only - the journal is left behind. While it is there the database file holds
+		// uncommitted pages which every reader (SQLite's, LiteFS's export) has to roll back first; the per-event image
+		// oracles skip the database on that node until the journal is gone.
 		// An application dies in the middle of a rollback-journal transaction on the primary (pages - among them the
 		// database's last one - already overwritten in the file after a cache spill, a valid journal next to it); then
 		// LiteFS recovers, as it does on a role change. Nothing was committed: everything is as before.
 		if p := r.c.Primary(); p != nil {
 			cur, ok := r.current(p, f[1])
-			if !ok || cur.N() < 2 || isWAL(cur) {
+			if !ok || cur.N() < 2 || isWAL(cur) || r.hotJournal(p, f[1]) {
 				return true
 			}
 			conn := pager.NewConn(p.M, f[1], r.nextOwner(), cur.PageSize)
@@ -654,6 +658,14 @@ func (r *runner) apply(ev string) bool {
 			}()
 			conn.Before = nil
 			conn.Close()
+			if f[0] == "hotj" {
+				if r.hotLeft == nil {
+					r.hotLeft = map[string]bool{}
+				}
+				r.hotLeft[f[1]] = true
+				// nobody has opened the database since: the journal stays until LiteFS itself has a reason to recover
+				return true
+			}
 			if err := p.Store.Recover(context.Background()); err != nil {
 				r.viol("C04/recover-error", "Store.Recover on primary with a dead application's hot journal: %v", err)
 				return false
@@ -957,6 +969,9 @@ func (r *runner) quiesceAndCheck(ev string) bool {
 				r.viol("C01/unknown-position/"+evKind(ev), "%s/%s reports position %s which no primary ever committed", name, dbn, db.Pos())
 				continue
 			}
+			if r.hotJournal(n, dbn) {
+				continue
+			}
 			_, fs := mon.CheckDB(n, dbn, img)
 			for _, f := range fs {
 				pr := f.Prop
@@ -1011,6 +1026,18 @@ func evKind(ev string) string {
 		return "tx-" + f[2]
 	}
 	return f[0]
+}
+
+// hotJournal reports whether the hotj event left a journal next to the node's database that is still there.
+func (r *runner) hotJournal(n *lab.Node, db string) bool {
+	d := n.DB(db)
+	if d == nil || !r.hotLeft[db] {
+		return false
+	}
+	if _, err := os.Stat(d.JournalPath()); err != nil {
+		return false
+	}
+	return true
 }
 
 // readerCheck is the C01 safety oracle: what an application reads through the
@@ -1137,6 +1164,9 @@ func (r *runner) enabled() []string {
 		}
 		if has("hot") && db == "a" && !isWAL(cur) && cur.N() >= 2 {
 			out = append(out, "hot:"+db)
+		}
+		if has("hotj") && db == "a" && !isWAL(cur) && cur.N() >= 2 {
+			out = append(out, "hotj:"+db)
 		}
 		if has("drop") {
 			out = append(out, "drop:"+db)
@@ -1473,6 +1503,9 @@ func (r *runner) syncBackup(fault string) bool {
 			r.restores++
 		}
 		if svc == pri {
+			if r.hotJournal(p, n) {
+				continue // uncommitted pages in the file until the journal is rolled back
+			}
 			img, ierr := localImage(p, n)
 			simg := ch.Image()
 			if ierr != nil || simg == nil {
@@ -1694,7 +1727,7 @@ func (r *runner) loopCaughtUp(ev string) {
 		ch := r.svc.Chain(n)
 		r.svcPosPrev[n] = ch.Pos()
 		d := p.DB(n)
-		if d == nil || d.Pos() != ch.Pos() || ch.Image() == nil {
+		if d == nil || d.Pos() != ch.Pos() || ch.Image() == nil || r.hotJournal(p, n) {
 			continue
 		}
 		img, err := localImage(p, n)
